@@ -89,6 +89,22 @@ def run_enumerated(col):
             col.record(v, case, 'enumerated')
 
 
+def structural_pass(col, case, sig):
+    """Bounded structural minimisation of a spec case after Hypothesis' own shrinking (same signature required)."""
+    from vf.minimize import minimize
+
+    def run(c):
+        res = col.prop.run(c, col.ctx)
+        col.evaluations += 1
+        col.per_search['minimise'] = col.per_search.get('minimise', 0) + 1
+        return {v.sig for v in res.violations}
+    try:
+        smaller, _ = minimize(case, sig, run, budget=150)
+        return smaller
+    except Exception:
+        return case
+
+
 def run_search(col, name, strategy, n_examples, base_seed, shrink_seconds):
     from hypothesis import given, settings, seed, HealthCheck, Phase
     import hypothesis.internal.conjecture.engine as eng
@@ -109,14 +125,13 @@ def run_search(col, name, strategy, n_examples, base_seed, shrink_seconds):
         def body(case):
             if col.abort:
                 return
+            fail = None
             if col.target_sig is None:
                 state['generated'] += 1
                 new = col.handle(case, name)
                 if new:
-                    v = new[0]
-                    col.target_sig = v.sig
-                    col.last_failing = (case, v)
-                    raise Found(v.sig)
+                    fail = new[0]
+                    col.target_sig = fail.sig
             else:
                 # shrinking one signature: fail iff that same signature is still produced
                 try:
@@ -127,8 +142,12 @@ def run_search(col, name, strategy, n_examples, base_seed, shrink_seconds):
                 col.per_search[name + ':shrink'] = col.per_search.get(name + ':shrink', 0) + 1
                 for v in res.violations:
                     if v.sig == col.target_sig:
-                        col.last_failing = (case, v)
-                        raise Found(v.sig)
+                        fail = v
+                        break
+            if fail is not None:
+                # one raise site for both phases: Hypothesis identifies a failure by exception type and location
+                col.last_failing = (case, fail)
+                raise Found(fail.sig)
 
         test = given(strategy)(body)
         test = seed(base_seed + rounds * 7919)(test)
@@ -140,11 +159,13 @@ def run_search(col, name, strategy, n_examples, base_seed, shrink_seconds):
             test()
         except Found:
             case, v = col.last_failing
+            case = structural_pass(col, case, v.sig)
             col.record(v, case, name)
         except Exception as exc:   # Flaky, Unsatisfiable, ... -> harness problem
             tn = type(exc).__name__
             if col.target_sig is not None and col.last_failing is not None and tn in ('Flaky', 'FlakyFailure'):
                 case, v = col.last_failing
+                case = structural_pass(col, case, v.sig)
                 col.record(v, case, name)
                 col.found[v.sig]['flaky'] = True
             else:
